@@ -125,6 +125,62 @@ func scenario(c cfg) *vm.Scenario {
 	return sc
 }
 
+// capacityScenario: all workers are held busy; one submitter then submits as many jobs as the pool must take
+// without making it wait - one per worker, one the dispatcher holds for the next free worker, and the
+// configured queue length - and reports when it is through.  Every job is released afterwards.
+func capacityScenario(w, q int) *vm.Scenario {
+	var through bool
+	var ran int
+	sc := &vm.Scenario{Name: fmt.Sprintf("gpool capacity W=%d Q=%d", w, q)}
+	sc.Reset = func() { through, ran = false, 0 }
+	sc.Main = func() {
+		pool := gpool.NewPool(w, q)
+		gate := make(chan struct{})
+		n := w + 1 + q
+		done := make(chan struct{}, n)
+		vm.GoNamed("submitter", func() {
+			for j := 0; j < n; j++ {
+				vm.Send(pool.JobQueue, gpool.Job(func() {
+					vm.Recv(gate)
+					ran++
+					vm.Send(done, struct{}{})
+				}))
+			}
+			through = true
+			vm.Log("submitter through")
+		})
+		vm.Sleep(int64(10 * time.Millisecond)) // everything that can move has moved
+		vm.Log("through=%v", through)
+		ok := through
+		for j := 0; j < n; j++ {
+			vm.Send(gate, struct{}{})
+		}
+		for j := 0; j < n; j++ {
+			vm.Recv(done)
+		}
+		through = ok
+		pool.Release()
+	}
+	sc.Check = func(r *vm.Result) string {
+		switch r.Status {
+		case vm.StDeadlock:
+			return "deadlock: " + strings.Join(r.Blocked, ",") + "\n" + r.ObsString()
+		case vm.StPanic:
+			return "panic: " + r.PanicMsg
+		case vm.StStepLimit:
+			return "livelock-or-step-limit"
+		}
+		if !through {
+			return fmt.Sprintf("submitter-blocked-although-the-queue-is-not-full\n%d workers busy, queue length %d: the submitter was not through with %d jobs\n%s", w, q, w+1+q, r.ObsString())
+		}
+		if ran != w+1+q {
+			return fmt.Sprintf("job-ran-%d-times\n%s", ran, r.ObsString())
+		}
+		return ""
+	}
+	return sc
+}
+
 func main() {
 	run := common.Start("C19", "model_checking")
 	var cases []e1.Case
@@ -135,18 +191,22 @@ func main() {
 		for _, w := range []int{1, 2} {
 			for _, q := range []int{0, 1, 2} {
 				add(cfg{W: w, Q: q, S: 1, J: 2, Y: 1}, -1, 60*time.Second)
-				b := -1
 				if w == 2 && q == 0 {
-					b = 3 // unbounded does not complete in the quick budget for this one
+					continue // unbounded does not complete in the quick budget for this one: see the strict runs below
 				}
-				add(cfg{W: w, Q: q, S: 2, J: 1, Y: 1}, b, 60*time.Second)
+				add(cfg{W: w, Q: q, S: 2, J: 1, Y: 1}, -1, 60*time.Second)
 				add(cfg{W: w, Q: q, S: 2, J: 1, Y: 0, releaseEarly: true}, -1, 60*time.Second)
 			}
 		}
 		// the larger configurations with a pre-emption bound that completes within the quick budget
 		// (bound 2 and unbounded: thorough)
-		add(cfg{W: 2, Q: 1, S: 2, J: 2, Y: 1}, 1, 60*time.Second)
-		add(cfg{W: 3, Q: 1, S: 1, J: 3, Y: 0}, 1, 60*time.Second)
+		for pol := 0; pol < 3; pol++ {
+			for _, c := range []cfg{{W: 2, Q: 1, S: 2, J: 2, Y: 1}, {W: 3, Q: 1, S: 1, J: 3, Y: 0}, {W: 2, Q: 0, S: 2, J: 1, Y: 1}} {
+				sc := scenario(c)
+				sc.Name += fmt.Sprintf(" strict bound=3 policy=%d", pol)
+				cases = append(cases, e1.Case{Sc: sc, Opt: vm.Options{Bound: 3, StrictDev: true, Policy: pol, Prune: true}, Budget: 60 * time.Second, MinOutcomes: 1})
+			}
+		}
 	} else {
 		for _, w := range []int{1, 2, 3} {
 			for _, q := range []int{0, 1, 2} {
@@ -158,6 +218,19 @@ func main() {
 					add(cfg{W: w, Q: q, S: 2, J: 1, Y: y, releaseEarly: true}, -1, 2*time.Minute)
 					add(cfg{W: w, Q: q, S: 2, J: 2, Y: y, releaseEarly: true}, 3, 2*time.Minute)
 				}
+			}
+		}
+	}
+	for _, w := range []int{1, 2, 3} {
+		for _, q := range []int{0, 1, 2, 5} {
+			b := 2
+			if run.Thorough() {
+				b = 3
+			}
+			for pol := 0; pol < 3; pol++ {
+				sc := capacityScenario(w, q)
+				sc.Name += fmt.Sprintf(" strict bound=%d policy=%d", b, pol)
+				cases = append(cases, e1.Case{Sc: sc, Opt: vm.Options{Bound: b, StrictDev: true, Policy: pol, Prune: true}, Budget: 60 * time.Second, MinOutcomes: 1})
 			}
 		}
 	}
